@@ -111,6 +111,11 @@ CHECKS = {
              "TargetsP as exact sets of (address, local address, scope, type, extent, header) and evaluates the structural predicates on nested targets (one step, index = source order, key = "
              "written key, inside the parent) on these and on the target trees of five curated worlds.",
         ref="DESIGN.md 5/C09", technique="TLC model checking of Targets.tla (MC_Targets) + replay of TLC-generated cases + TLC trace validation (TraceTargets)"),
+    "C19": dict(
+        text="Targets / origins / outline operators of the specification take no syntax argument: every (schema, document) case of MC_Targets that is expressible in both syntaxes is "
+             "rendered natively and as JSON, both are loaded into the real decoder, and TraceSyntax requires the absolute targets (address, scope, type, nesting), the origin addresses "
+             "and the block / attribute outline of the two observations to be equal as bags and to equal TargetsP and the item tree of the abstract document.",
+        ref="DESIGN.md 5/C19", technique="TLC-generated cases (MC_Targets) replayed in two concrete syntaxes + TLC trace validation against Targets.tla / the document tree (TraceSyntax)"),
 }
 
 NOT_YET = {
